@@ -6,7 +6,7 @@
    Strings are lists of code points; 123 / 125 are the braces, so `brace_free s` says no replacement field is left in s. *)
 From Coq Require Import ZArith List Bool String.
 From PV Require Import Lib.PyBase Model.LocaleBase Gen.Locales Model.DiffFormat Model.LocaleSession Proofs.C18Facts Proofs.C18Session.
-From PV Require Import Model.PdBase Model.PdInterval Model.DiffHumans Proofs.C18Diff.
+From PV Require Import Spec.Cal Model.PdBase Model.PdInterval Model.DiffHumans Proofs.C06Facts Proofs.C18Diff.
 Import ListNotations.
 Open Scope string_scope.
 Open Scope Z_scope.
@@ -214,3 +214,25 @@ Theorem diff_rs_cross_zone_refuted : exists a b,
   diff_comps true a b (p_offset a) (p_offset b) = Ok (mkcomp 0 0 0 0 1 (-59) 1, false).
 Proof. exact diff_rs_cross_zone_refuted_lemma. Qed.
 Print Assumptions diff_rs_cross_zone_refuted.
+
+(* magnitude, proved end to end: two datetimes with zero offset (both UTC, or both naive) less than a day apart, the instance earlier.
+   The difference is computed by the translated precise_diff (characterised in C06), the Interval glue and the translated unit selection:
+   the count of the phrase is within one unit of the TRUE elapsed time (whole seconds), and 'a few seconds' is said only for at most 10 s *)
+Theorem within_one_unit_true_elapsed : forall a b, dt_pair a b -> 0 < p_wall b - p_wall a < us_per_day ->
+  exists c, diff_comps false a b 0 0 = Ok (c, false) /\
+    match gen_pick c with
+    | Some (u, n) => Z.abs (n * unit_seconds u - (p_wall b - p_wall a) / 1000000) < unit_seconds u
+    | None => (p_wall b - p_wall a) / 1000000 <= 10
+    end.
+Proof. exact within_one_unit_true_elapsed_lemma. Qed.
+Print Assumptions within_one_unit_true_elapsed.
+
+(* the same with the compiled helper (hand model; equal to the pure-Python one on this domain by C06's pd_rust_eq_python) *)
+Theorem within_one_unit_true_elapsed_rs : forall a b, dt_pair a b -> 1 <= p_year a -> 0 < p_wall b - p_wall a < us_per_day ->
+  exists c, diff_comps true a b 0 0 = Ok (c, false) /\
+    match gen_pick c with
+    | Some (u, n) => Z.abs (n * unit_seconds u - (p_wall b - p_wall a) / 1000000) < unit_seconds u
+    | None => (p_wall b - p_wall a) / 1000000 <= 10
+    end.
+Proof. exact within_one_unit_true_elapsed_rs_lemma. Qed.
+Print Assumptions within_one_unit_true_elapsed_rs.
